@@ -218,13 +218,16 @@ func MarshalToFunc[T any](fn func(*jsontext.Encoder, T) error) *Marshalers {
 		fnc: func(enc *jsontext.Encoder, va addressableValue, mo *jsonopts.Struct) error {
 			xe := export.Encoder(enc)
 			prevDepth, prevLength := xe.Tokens.DepthLength()
+			withinArshalCall := xe.Flags.Get(jsonflags.WithinArshalCall) // true if called from within another user-defined call
 			xe.Flags.Set(jsonflags.WithinArshalCall | 1)
 			v, _ := reflect.TypeAssert[T](va.castTo(t))
 			prevFloor := xe.Tokens.Floor
 			xe.Tokens.Floor = len(xe.Tokens.Stack)         // the function may not close the enclosing object or array
 			defer func() { xe.Tokens.Floor = prevFloor }() // also when the user code panics
 			err := fn(enc, v)
-			xe.Flags.Set(jsonflags.WithinArshalCall | 0)
+			if !withinArshalCall {
+				xe.Flags.Set(jsonflags.WithinArshalCall | 0)
+			}
 			currDepth, currLength := xe.Tokens.DepthLength()
 			if err == nil && (prevDepth != currDepth || prevLength+1 != currLength) {
 				err = errNonSingularValue
@@ -308,13 +311,16 @@ func UnmarshalFromFunc[T any](fn func(*jsontext.Decoder, T) error) *Unmarshalers
 			if prevDepth == 1 && xd.AtEOF() {
 				return io.EOF // check EOF early to avoid fn reporting an EOF
 			}
+			withinArshalCall := xd.Flags.Get(jsonflags.WithinArshalCall) // true if called from within another user-defined call
 			xd.Flags.Set(jsonflags.WithinArshalCall | 1)
 			v, _ := reflect.TypeAssert[T](va.castTo(t))
 			prevFloor := xd.Tokens.Floor
 			xd.Tokens.Floor = len(xd.Tokens.Stack)         // the function may not close the enclosing object or array
 			defer func() { xd.Tokens.Floor = prevFloor }() // also when the user code panics
 			err := fn(dec, v)
-			xd.Flags.Set(jsonflags.WithinArshalCall | 0)
+			if !withinArshalCall {
+				xd.Flags.Set(jsonflags.WithinArshalCall | 0)
+			}
 			currDepth, currLength := xd.Tokens.DepthLength()
 			if err == nil && (prevDepth != currDepth || prevLength+1 != currLength) {
 				err = errNonSingularValue
